@@ -498,6 +498,15 @@ def gen():
             else:
                 arms.append({"self.receiver": "ArmPlain", "self.priority_receiver": "ArmPrio", "self.timer_receiver": "ArmCmd", "alarm": "ArmAlarm"}.get(a.group(2), "ArmOther"))
         loops_on_try = bool(re.search(r"loop\s*\{\s*if let Some\(event\) = self\.try_receive\(\)\s*\{\s*return", body))
+        # what each arm does (the model's LWake steps): plain / priority return the event, a timer command is
+        # folded and the loop goes round, the alarm just goes round (try_receive then decides), default returns None
+        rhs = [" ".join(x.split()) for x in re.split(r"(?:recv\([^)]*\)|default\([^)]*\))\s*(?:->\s*\w+\s*)?=>", sel)[1:]]
+        rhs = [x.rstrip(",").strip() for x in rhs]
+        some = (lambda x: "Some(" + x + ")") if fn == "receive_timeout" else (lambda x: x)
+        want = {"ArmPlain": "return " + some("event.unwrap()"), "ArmPrio": "return " + some("event.unwrap()"),
+                "ArmCmd": "self.process_timer_command(command.unwrap())", "ArmAlarm": "()", "ArmDefault": "return None"}
+        bodies_ok = len(rhs) == len(arms) and all(want.get(a) == r for a, r in zip(arms, rhs))
+        facts[fn + "_arm_bodies_ok"] = bodies_ok
         return arms, loops_on_try
 
     for fn, nm in [("receive", "RECEIVE"), ("receive_timeout", "RECEIVE_TIMEOUT")]:
@@ -505,6 +514,7 @@ def gen():
         facts[nm + "_ARMS"] = arms
         emit(f"Definition {nm}_ARMS : list select_arm := [" + "; ".join(arms) + "].")
         defB(nm + "_LOOPS_ON_TRY_RECEIVE", lt)
+        defB(nm + "_ARM_BODIES_OK", bool(facts.pop(fn + "_arm_bodies_ok")), "plain / priority arms return the event, the command arm folds it, the alarm arm only re-loops, default returns None")
     # the alarm is the deadline of the first key of the map
     defB("ALARM_IS_FIRST_TIMER_KEY", bool(re.search(r"fn next_timer_alarm\(&self\)[^{]*\{\s*match self\.timers\.keys\(\)\.next\(\)\s*\{\s*Some\(next_timer\)\s*=>\s*crossbeam_channel::at\(next_timer\.0\),\s*None\s*=>\s*crossbeam_channel::never\(\)", ev)))
     # try_receive: enque_timers; priority; first timer if expired; plain
